@@ -143,7 +143,8 @@ pub fn run(op: &str, args: &[String]) -> Option<String> {
                         Ok(p) => hex::encode(p),
                         Err(_) => "ERR".into(),
                     };
-                    format!("OK:{};{};{};{};{}", show_bytes(&back), pk, show_bytes(&body), hex::encode(mac), ext)
+                    let keys = if c.get_cipher_keys().is_none() { "none" } else { "some" };
+                    format!("OK:{};{};{};{};{};{}", show_bytes(&back), pk, show_bytes(&body), hex::encode(mac), ext, keys)
                 }
                 Err(_) => "ERR".into(),
             }
@@ -163,6 +164,71 @@ pub fn run(op: &str, args: &[String]) -> Option<String> {
             let mut flipped = ser.clone();
             flipped[bit / 8] ^= 1u8 << (7 - bit % 8);
             format!("{},{}", dec_ser(&ser, haspk, &b, &a), dec_ser(&flipped, haspk, &b, &a))
+        }
+        "ecies.mem" => {
+            if args.len() != 8 {
+                return Some("BADARG".into());
+            }
+            let msg = arg!(arg_bytes(args, 6));
+            let excl = arg!(arg_bool(args, 7));
+            let a = key!(arg_priv(args, 0));
+            let bp = key!(arg_pub(args, 1));
+            let b = key!(arg_priv(args, 2));
+            let ap = key!(arg_pub(args, 3));
+            let b2 = key!(arg_priv(args, 4));
+            let a2p = key!(arg_pub(args, 5));
+            match ECIES::encrypt(&msg, &a, &bp, excl) {
+                // the object returned by encrypt is used as it is (it carries its memoised cipher keys)
+                Ok(c) => format!(
+                    "{},{},{},{},{},{}",
+                    show_msg(ECIES::decrypt(&c, &b, &ap)),
+                    show_msg(ECIES::decrypt(&c, &b2, &ap)),
+                    show_msg(ECIES::decrypt(&c, &b, &a2p)),
+                    show_msg(b.decrypt_message(&c, &ap)),
+                    show_msg(b2.decrypt_message(&c, &ap)),
+                    show_msg(b.decrypt_message(&c, &a2p))
+                ),
+                Err(_) => "ERR".into(),
+            }
+        }
+        "ecies.sweep" => {
+            if args.len() != 7 {
+                return Some("BADARG".into());
+            }
+            let excl = arg!(arg_bool(args, 2));
+            let seed = arg!(arg_u64(args, 3));
+            let start = arg!(arg_u64(args, 4));
+            let step = arg!(arg_u64(args, 5));
+            let count = arg!(arg_u64(args, 6));
+            if count > 64 || start + step * count > 100000 {
+                return Some("BADARG".into());
+            }
+            let a = key!(arg_priv(args, 0));
+            let b = key!(arg_priv(args, 1));
+            let (pa, pb) = match (a.to_public_key(), b.to_public_key()) {
+                (Ok(x), Ok(y)) => (x, y),
+                _ => return Some("ERR".into()),
+            };
+            let mut out = String::from("OK:");
+            for i in 0..count {
+                let n = start + step * i;
+                let msg = arg!(expand(&format!("l:{}:{}", seed + i, n)));
+                match ECIES::encrypt(&msg, &a, &pb, excl) {
+                    Ok(c) => {
+                        let ser = c.to_bytes();
+                        let (mut fa, mut fb): (u64, u64) = (1, 0);
+                        for x in &ser {
+                            fa = (fa + *x as u64) % 65521;
+                            fb = (fb + fa) % 65521;
+                        }
+                        let back = ECIESCiphertext::from_bytes(&ser, !excl).and_then(|c2| ECIES::decrypt(&c2, &b, &pa));
+                        let ok = matches!(&back, Ok(m) if *m == msg);
+                        out.push_str(&format!("{}.{}.{},", ser.len(), fb * 65536 + fa, if ok { 1 } else { 0 }));
+                    }
+                    Err(_) => out.push_str("E,"),
+                }
+            }
+            out
         }
         "ecies.self" => {
             if args.len() != 3 {
